@@ -821,6 +821,71 @@ theorem cuesOutcomes_error (n : Nat) (hn : 1 ≤ n) (content : Str)
     (h : parseFile 0 1 content = none) : cuesOutcomes n content = none :=
   cuesOutcomesWith_error pyInt n hn content h
 
+/-! ### the same for `words_symbols`, and the function the driver runs -/
+
+theorem wsStep_none (lower : Option (List (Str × Str))) (n : Nat) (lines : List (List Str)) :
+    ∀ ks : List Nat, ks.foldl (wsStep lower n lines) none = none
+  | [] => rfl
+  | k :: ks => by simp [foldl_cons, wsStep, wsStep_none lower n lines ks]
+
+theorem ws_fold_none (lower : Option (List (Str × Str))) (n : Nat) (lines : List (List Str)) (k : Nat)
+    (hk : linesWords lower (stride k n lines) = none) :
+    ∀ (ks : List Nat) (acc : Option WS), k ∈ ks → ks.foldl (wsStep lower n lines) acc = none
+  | [], _, h => by simp at h
+  | j :: ks, acc, h => by
+    rw [foldl_cons]
+    by_cases hj : j = k
+    · subst hj
+      have : wsStep lower n lines acc j = none := by
+        cases acc <;> simp [wsStep, jobWordsSymbols, hk]
+      rw [this, wsStep_none]
+    · have : k ∈ ks := by
+        rcases mem_cons.mp h with h | h
+        · exact absurd h.symm hj
+        · exact h
+      exact ws_fold_none lower n lines k hk ks _ this
+
+/-- a word the `lower` table lacks is read by one of the `n ≥ 1` jobs -/
+theorem wordsSymbols_error (lower : Option (List (Str × Str))) (n : Nat) (hn : 1 ≤ n)
+    (lines : List (List Str)) (h : linesWords lower lines = none) : wordsSymbols lower n lines = none := by
+  unfold linesWords at h
+  rw [collectAll_none_iff] at h
+  obtain ⟨line, hmem, hline⟩ := h
+  have hp := (stride_perm n hn lines).mem_iff (a := line)
+  rw [mem_flatMap] at hp
+  obtain ⟨k, hk, hin⟩ := hp.mpr hmem
+  have hnone : linesWords lower (stride k n lines) = none := by
+    unfold linesWords
+    rw [collectAll_none_iff]
+    exact ⟨line, hin, hline⟩
+  exact ws_fold_none lower n lines k hnone _ _ hk
+
+/-- **`wordsSymbolsE` (what the driver runs) for `n ≥ 1`** is `wordsSymbols` with
+    `none` reported as the harness-side `missingLower`. -/
+theorem wordsSymbolsE_pos (lower : Option (List (Str × Str))) (n : Nat) (hn : 1 ≤ n)
+    (lines : List (List Str)) :
+    (∀ r, wordsSymbols lower n lines = some r → wordsSymbolsE lower n lines = .ok r) ∧
+    (wordsSymbols lower n lines = none → wordsSymbolsE lower n lines = .error .missingLower) := by
+  have : n ≠ 0 := by omega
+  constructor
+  · intro r h; simp only [wordsSymbolsE, if_neg this, h]
+  · intro h; simp only [wordsSymbolsE, if_neg this, h]
+
+theorem wordsSymbolsE_ok_iff (lower : Option (List (Str × Str))) (n : Nat) (hn : 1 ≤ n)
+    (lines : List (List Str)) (r : WS) :
+    wordsSymbolsE lower n lines = .ok r ↔ wordsSymbols lower n lines = some r := by
+  obtain ⟨h1, h2⟩ := wordsSymbolsE_pos lower n hn lines
+  cases h : wordsSymbols lower n lines with
+  | none => rw [h2 h]; simp
+  | some r' => rw [h1 r' h]; simp
+
+/-- `wordsSymbolsE` never returns `.ok` at `n = 0` -/
+theorem wordsSymbolsE_ok_pos (lower : Option (List (Str × Str))) (n : Nat)
+    (lines : List (List Str)) (r : WS) (h : wordsSymbolsE lower n lines = .ok r) : 1 ≤ n := by
+  cases n with
+  | zero => simp [wordsSymbolsE] at h
+  | succ n => omega
+
 /-! ## decimal frequency literals -/
 
 def digitChar (d : Nat) : Char := Char.ofNat (48 + d)
